@@ -16,6 +16,7 @@ def rep_times(t0, ddt, limit):
 
 class H(Harness):
     ID = 'C03'
+    ANCHOR_FILES = ['epydemic/networkdynamics.py', 'epydemic/stochasticdynamics.py', 'epydemic/synchronousdynamics.py', 'epydemic/networkexperiment.py', 'epydemic/process.py']
     TIE_IMPORT = kcommon.TIE_IMPORT
     CHECK_FN = kcommon.CHECK_FN
     VO_TARGETS = ['Properties/C03.vo', 'Tie/Kernel.vo']
